@@ -267,12 +267,13 @@ func rtOracle(r *rtRun, prop string) []string {
 			}
 		}
 		out = append(out, rtBlockingOracle(r)...)
-		// unless the queue overflowed (or the Config context ended), every rejected update reaches OnWatchedError
-		if r.shutdownOK && !r.cfg.stuck && r.maxQueue < 64 && !r.rootCancelled {
-			rejected, delivered := 0, 0
-			for _, u := range r.updates {
-				if u.outcome == "stackErr" || u.outcome == "verifyErr" {
-					rejected++
+		// unless the queue overflowed, every rejected update whose error event was submitted before the Config
+		// context ended reaches OnWatchedError (the callback goroutine drains its queue before exiting)
+		if r.shutdownOK && !r.cfg.stuck {
+			submitted, delivered := 0, 0
+			for _, sb := range r.submits {
+				if (sb.kind == "stackErr" || sb.kind == "verifyErr") && sb.qlen < 64 && (r.rootCancelStep == 0 || sb.step < r.rootCancelStep) {
+					submitted++
 				}
 			}
 			for _, d := range r.deliveries {
@@ -280,8 +281,8 @@ func rtOracle(r *rtRun, prop string) []string {
 					delivered++
 				}
 			}
-			if rejected != delivered {
-				bad("%d updates were rejected but OnWatchedError was called %d times for stack/verify errors although the queue never filled (max %d)", rejected, delivered, r.maxQueue)
+			if delivered < submitted {
+				bad("%d rejected updates had their error event submitted (queue not full, Config context alive) but OnWatchedError was called only %d times for stack/verify errors", submitted, delivered)
 			}
 		}
 		// a rejected update must not change the view: serial of installs is dense (checked in C05) and
